@@ -212,6 +212,7 @@ func runInproc(c *fw.Ctx, idx int, r *fw.Rand) {
 	desc := fmt.Sprintf("inproc/cap=%d/period=%v/changecap=%v", cap, period, changeCap)
 	e = c07.NewExec("C10", "file", desc, st, cap, 0, boxes)
 	e.Open = open
+	e.QuietReopen = true
 	e.ScanCfg = sc
 	e.ContentEvery = 8
 	for _, op := range ops {
